@@ -74,9 +74,10 @@ def audit(pid, thorough=False):
     # the current tree; the `*s.lean` theorems of the properties that depend on them are rebuilt below
     try:
         import gen_source_facts
-        gen_source_facts.generate()
+        _, _, errs = gen_source_facts.generate()
+        res["problems"] += gen_source_facts.problems_for(pid, errs)
     except Exception as e:
-        res["problems"].append("translator tools/gen_source_facts.py could not read the source: %s" % e)
+        res["problems"].append("translator tools/gen_source_facts.py failed: %s" % e)
     req_path = os.path.join(ROOT, "tools", "required_theorems.json")
     required = json.load(open(req_path)).get(pid, []) if os.path.exists(req_path) else []
     path, names = theorems_of(pid)
